@@ -549,7 +549,13 @@ Definition Find (F : forest) (ctx : module) (start : pos) (name : str) : option 
       (* absolute: go to the root of the start's tree, then to the module the first prefix names *)
       let prefix := fst (getPrefix first) in
       match prefix with
-      | [] => find_steps F (Some (fst start, [])) (first :: rest)
+      | [] =>
+        (* a name without prefix is a name of the current module: for a submodule, its owner *)
+        let root := match find_module SC (fst start) with
+                    | Some sm => match owner SC sm with Some o => m_name o | None => fst start end
+                    | None => fst start
+                    end in
+        find_steps F (Some (root, [])) (first :: rest)
       | _ =>
         match FindModuleByPrefix ctx prefix with
         | None => (None, F)
@@ -641,18 +647,18 @@ Fixpoint augment_pass (fuel : nat) (F : forest) (err : bool) (P : pendings) (mod
     end
   end.
 
-Fixpoint augment_loop (fuel : nat) (F : forest) (err : bool) (P : pendings) (mods : list str)
-  : forest * bool * pendings * list str :=
+Fixpoint augment_loop (fuel : nat) (F : forest) (err : bool) (P : pendings) (mods : list str) (applied : nat)
+  : forest * bool * pendings * list str * nat :=
   match fuel with
-  | O => (F, err, P, mods)
+  | O => (F, err, P, mods, applied)
   | S f =>
     match mods with
-    | [] => (F, err, P, mods)
+    | [] => (F, err, P, mods, applied)
     | _ =>
       let '(F1, err1, P1, mods1, processed) := augment_pass (2 * length mods) F err P mods O O in
       match processed with
-      | O => (F1, err1, P1, mods1)
-      | _ => augment_loop f F1 err1 P1 mods1
+      | O => (F1, err1, P1, mods1, applied)
+      | _ => augment_loop f F1 err1 P1 mods1 (applied + processed)
       end
     end
   end.
@@ -668,7 +674,8 @@ Fixpoint fix_choice (fuel : nat) (e : entry) : entry :=
         set_dir e (Some (map (fun kv =>
                      match e_kind (snd kv) with
                      | KCase => kv
-                     | _ => (fst kv, Entry (e_name (snd kv)) KCase TSUnset TSUnset [] [] None [] None None
+                     | _ => (fst kv, Entry (e_name (snd kv)) KCase TSUnset TSUnset [] [] None [] None
+                                           (e_ns (snd kv))      (* the member's namespace stamp *)
                                            (Some [(e_name (snd kv), snd kv)]) None)
                      end) d))
       | _, _ => e
@@ -886,10 +893,29 @@ Definition Process (order : list str) : result :=
                              (filter (fun x => negb (is_sub (fst x))) built_mods) in
       let P0 : pendings := map (fun m => (m_name m, module_augs m)) SC in
       let n_aug := fold_right (fun m n => length (m_augments m) + n)%nat O SC in
-      let '(F1, err1, P1, mods1) := augment_loop (S n_aug) F0 false P0 order in
-      let fuelF := S (fold_right Nat.max O (map (fun kv => depth (entry_fuel SC) (snd kv)) F1)) in
-      let F2 := map (fun kv => (fst kv, fix_choice (S fuelF) (snd kv))) F1 in
-      (* remaining augments once more, now reporting the ones that still find no target *)
+      (* apply augments until no progress, fix up the choices, and start over as long as that made
+         progress (an augment path may lead through a case that FixChoice inserts) *)
+      let fix_all (F : forest) : forest :=
+        let fuelF := S (fold_right Nat.max O (map (fun kv => depth (entry_fuel SC) (snd kv)) F)) in
+        (* every level costs at most two units of fuel: the case that is inserted and its member *)
+        map (fun kv => (fst kv, fix_choice (2 * S fuelF) (snd kv))) F in
+      let '(F2, err1, P1, mods1) :=
+        (fix rounds (fuel : nat) (round : nat) (F : forest) (err : bool) (P : pendings) (mods : list str)
+           : forest * bool * pendings * list str :=
+           match fuel with
+           | O => (F, err, P, mods)
+           | S f =>
+             let '(Fa, erra, Pa, modsa, applied) := augment_loop (S n_aug) F err P mods O in
+             let Fb := fix_all Fa in
+             match modsa with
+             | [] => (Fb, erra, Pa, modsa)
+             | _ => match round, applied with
+                    | S _, O => (Fb, erra, Pa, modsa)
+                    | _, _ => rounds f (S round) Fb erra Pa modsa
+                    end
+             end
+           end) (S (S n_aug)) O F0 false P0 order in
+      (* what is left has no target: report it *)
       let '(F3, err3, _) :=
         fold_left (fun st mn =>
                      let '(F, err, P) := st in
@@ -930,25 +956,24 @@ Definition Namespace (F : forest) (p : pos) : str :=
   | None => []
   end.
 
-(* ReadOnly(): nearest explicit config on the way up, output is read-only *)
-Fixpoint ro_walk (e : entry) (steps : list step) (inherited : bool) : bool :=
-  let here := match e_kind e with
-              | KOutput => true
-              | _ => match e_cfg e with TSUnset => inherited | TSTrue => false | TSFalse => true end
-              end in
+(* ReadOnly(): everything in an rpc/action output is read-only; otherwise the nearest explicit
+   config on the way up decides; nothing on the path: read-write *)
+Fixpoint ro_walk (e : entry) (steps : list step) (inherited : bool) (in_out : bool) : bool :=
+  let in_out := in_out || match e_kind e with KOutput => true | _ => false end in
+  let here := match e_cfg e with TSUnset => inherited | TSTrue => false | TSFalse => true end in
   match steps with
-  | [] => here
+  | [] => in_out || here
   | SChild n :: r =>
     match e_dir e with
-    | Some d => match lookup n d with Some c => ro_walk c r here | None => here end
-    | None => here
+    | Some d => match lookup n d with Some c => ro_walk c r here in_out | None => in_out || here end
+    | None => in_out || here
     end
-  | SIn :: r => match e_rpc e with Some (Some i, _) => ro_walk i r here | _ => here end
-  | SOut :: r => match e_rpc e with Some (_, Some o) => ro_walk o r here | _ => here end
+  | SIn :: r => match e_rpc e with Some (Some i, _) => ro_walk i r here in_out | _ => in_out || here end
+  | SOut :: r => match e_rpc e with Some (_, Some o) => ro_walk o r here in_out | _ => in_out || here end
   end.
 
 Definition ReadOnly (F : forest) (p : pos) : bool :=
-  match lookup (fst p) F with Some root => ro_walk root (snd p) false | None => false end.
+  match lookup (fst p) F with Some root => ro_walk root (snd p) false false | None => false end.
 
 (* InstantiatingModule(): the module whose namespace it is; None if none or more than one *)
 Definition InstantiatingModule (F : forest) (p : pos) : option str :=
